@@ -19,6 +19,9 @@ emu_ev(struct emu_ev *ev, const struct ovni_ev *oev,
 
 	ev->payload_size = (size_t) ovni_payload_size(oev);
 
+	/* The emu_ev is reused: don't keep the flag of a previous jumbo event */
+	ev->is_jumbo = 0;
+
 	if (ev->payload_size > 0) {
 		ev->has_payload = 1;
 		ev->payload = &oev->payload;
@@ -29,6 +32,5 @@ emu_ev(struct emu_ev *ev, const struct ovni_ev *oev,
 	} else {
 		ev->has_payload = 0;
 		ev->payload = NULL;
-		ev->is_jumbo = 0;
 	}
 }
